@@ -340,7 +340,7 @@ func c01Shrink(raw json.RawMessage) []json.RawMessage {
 func init() {
 	Register(&Check{
 		ID: "C01", Level: "exploration",
-		QuickRuns: 24000, ThoroughRuns: 1200000,
+		QuickRuns: 40000, ThoroughRuns: 1200000,
 		Gen: c01Gen, Exec: c01Exec, Shrink: c01Shrink,
 		Rule: "one case = one simulated history on a single long-lived VM: 3-9 commands (Run, Parse+RunAfterParsed x2, RunExpr, stale RunAfterParsed) over generated, ill-typed, broken-tail, byte-noise and adversarial programs, under a swarm configuration (dice flags, DisableStmts/NDice/Bitwise, IgnoreDiv0, min/max, DefaultDiceSideExpr, op/parse budgets, seeded/unseeded), with host-callback faults (handler error/nil/re-entrant RunExpr), simulator cancellation at a chosen tick, and an observation burst after every command. distinct = distinct command-text sequences; non-trivial = at least one evaluation dispatched more than 3 instructions successfully",
 		Real: []string{"dicescript parser, compiler, VM, values, ValueMap, serialisation, roll functions (whole package, build tag verif)"},
